@@ -1211,6 +1211,23 @@ func checkEnv(c envCase) evid.Outcome {
 			return evid.Fail("%s", d)
 		}
 	}
+	// envelopes made with another initial value than A6A6A6A6A6A6A6A6 - every single bit, either half, the RFC 5649
+	// value: the integrity register the unwrap recovers is wrong in exactly those bits, everything else is in order
+	ivs := [][]byte{{0x01, 0x23, 0x45, 0x67, 0xa6, 0xa6, 0xa6, 0xa6}, {0xa6, 0xa6, 0xa6, 0xa6, 0x01, 0x23, 0x45, 0x67}, {0xa6, 0x59, 0x59, 0xa6, 0, 0, 0, 16}, {0, 0, 0, 0, 0, 0, 0, 0}}
+	for bit := 0; bit < 64; bit++ {
+		iv := []byte{0xa6, 0xa6, 0xa6, 0xa6, 0xa6, 0xa6, 0xa6, 0xa6}
+		iv[bit/8] ^= 0x80 >> uint(bit%8)
+		ivs = append(ivs, iv)
+	}
+	for _, iv := range ivs {
+		forged, err := ref.KeyWrapIV(c.KEK, c.Key, iv)
+		if err != nil {
+			return evid.Fail("harness: reference wrap: %v", err)
+		}
+		if d := agree(fmt.Sprintf("an envelope wrapped with the initial value %x instead of a6a6a6a6a6a6a6a6", iv), c.KEK, forged); d != "" {
+			return evid.Fail("%s", d)
+		}
+	}
 	// length corruptions: a truncated or extended envelope cannot pass the integrity check of a wrapped 128 bit key
 	for n := 0; n < len(want); n++ {
 		if d := agree(fmt.Sprintf("the envelope truncated to %d bytes", n), c.KEK, want[:n]); d != "" {
